@@ -585,7 +585,9 @@ def replay(path):
         print("model", m[:300])
         if k < len(chk):
             print("spec ", chk[k][:300])
-    differ = impl != model
+    # properties whose observations carry timestamps / scheduling noise are judged by the Spec
+    # predicate alone (SPEC.compare_model = False)
+    differ = impl != model if getattr(mod.SPEC, "compare_model", True) else False
     fails = any(c.startswith("fails") for c in chk)
     print("REPLAY: implementation and model %s; the property predicate %s on the implementation's observations" % (
         "still disagree" if differ else "agree on this input now", "FAILS" if fails else "holds (or is not defined for these ops)"))
